@@ -175,6 +175,7 @@ class Rec:
     def __init__(self):
         self.msgs = []
         self.cmdlines = []
+        self.mode_unknown = False
         self.delivered = None    # number of DATA-phase stream bytes handed to the server so far (None outside)
 
 
@@ -185,7 +186,9 @@ def _server_class(base):
 
         def lineReceived(self, line):
             mode = getattr(self, "mode", None)
-            if mode != smtp.DATA:
+            if mode is None:
+                self.rec.mode_unknown = True      # cannot tell command mode from data mode: skip the command verdict
+            elif mode != smtp.DATA:
                 self.rec.cmdlines.append(bytes(line))
             return base.lineReceived(self, line)
     return Server
@@ -266,7 +269,7 @@ def session(server_kind, body, chunks, seg, bytewise_all=False, override=None):
     else:
         obs["loop"] = True
     obs["client_cmds"] = [ln for (d, ln) in client.sent if not d]
-    obs["server_cmds"] = list(rec.cmdlines)
+    obs["server_cmds"] = list(rec.cmdlines) if not rec.mode_unknown else []
     obs["msgs"] = [(list(m.lines), list(m.eoms), m.lost) for m in rec.msgs]
     obs["client_results"] = list(client.results)
     obs["server_closed"] = stt.disconnecting
@@ -351,15 +354,16 @@ def evaluate(server_kind, lines, chunks, seg, bytewise_all, whole_ok=None, use_r
         return [], obs
     client_sigs = attribute(lines, body, chunks, obs)
     kinds = ",".join(k for k, _ in bad)
-    detail = "body %r read as chunks %r, DATA stream %r (reference %r) delivered %s: %s" % (
-        body, chunks, obs["stream"], ref_stream(lines), "byte-at-a-time" if bytewise_all else (seg or "whole"),
+    detail = "%s server; body %r read as chunks %r, DATA stream %r%s (reference %r) delivered %s: %s" % (
+        server_kind, body, chunks, obs["stream"], " [reference stream fed to the server instead of the client's]" if use_ref else "",
+        ref_stream(lines), "byte-at-a-time" if bytewise_all else (seg or "whole"),
         "; ".join("%s: %s" % b for b in bad))
     if client_sigs:
         return [(s, detail) for s in client_sigs], obs
     suffix = ""
     if whole_ok:
         suffix = ":only-when-split"
-    return [("%s.dataLineReceived:%s%s" % (server_kind, k, suffix), detail) for k, _ in bad], obs
+    return [("SMTP.dataLineReceived:%s%s" % (k, suffix), detail) for k, _ in bad], obs
 
 
 # ---------------------------------------------------------------- enumeration
